@@ -452,6 +452,11 @@ func generateGhost(p *packages.Package, funcs map[string]*ssa.Function, cs *Cont
 			if have[id] || universe[id] || ghostNames[id] {
 				continue
 			}
+			if obj := pkgScope.Lookup(id); obj != nil {
+				if _, isType := obj.(*types.TypeName); isType {
+					continue
+				}
+			}
 			if allowLocals && target != nil && id != "rangeindex" {
 				if t := findLocal(p.TypesInfo, target, id); t != nil {
 					ps = append(ps, ghostParam{id, tp.str(t)})
@@ -483,7 +488,11 @@ func generateGhost(p *packages.Package, funcs map[string]*ssa.Function, cs *Cont
 			return
 		}
 		c.Params = ps
-		fmt.Fprintf(&body, "// %s\nfunc %s(%s) %s { %s; return %s }\n\n", c.Line, fnName, paramList(ps), retType, useAll(ps), c.Expr)
+		fmt.Fprintf(&body, "// %s\nfunc %s(%s) %s { return %s }\n\n", c.Line, fnName, paramList(ps), retType, c.Expr)
+		if c.Ante != "" {
+			c.AnteFn = fnName + "_ante"
+			fmt.Fprintf(&body, "func %s(%s) bool { return %s }\n\n", c.AnteFn, paramList(ps), c.Ante)
+		}
 	}
 	names := append([]string{}, cs.Order...)
 	var ftNames []string
@@ -518,6 +527,10 @@ func generateGhost(p *packages.Package, funcs map[string]*ssa.Function, cs *Cont
 			}
 			for i, c := range l.Invariants {
 				emit(c, fmt.Sprintf("zz_inv_%s_%d_%d", mn, o, i), lp, "bool", target, true)
+			}
+			for i, c := range l.IterLets {
+				emit(c, fmt.Sprintf("zz_ilet_%s_%d_%d", mn, o, i), lp, c.Type, target, true)
+				lp = append(lp, ghostParam{c.Name, c.Type})
 			}
 			for i, c := range l.Iters {
 				emit(c, fmt.Sprintf("zz_iter_%s_%d_%d", mn, o, i), lp, "bool", target, true)
